@@ -32,7 +32,7 @@ func init() {
 		Real: []string{"fullrt.FullRT.GetValue/SearchValue/searchValueQuorum/getValues/processValues/execOnMany (fullrt/dht.go)", "fullrt.FullRT.GetClosestPeers over the crawled table", "ProtocolMessenger.GetValue (record key check)", "records.ValueStore (local record)"},
 		Stub: []string{"host.Host/network (simhost)", "pb.MessageSender (level A, simnet.Sender)", "crawler.Crawler (harness stub reporting a fixed peer set)", "remote peers (scripted responders)", "record validator (harness rank validator, time-aware)"},
 		Faults: []string{"fault_rec_invalid", "fault_rec_miskeyed", "fault_rec_empty", "fault_rpc_error", "fault_cancel", "time_advance",
-			"probe_found", "probe_notfound", "probe_stream_multi", "probe_search_ended_early", "probe_local_valid", "probe_local_expired", "probe_bestknown_checked"},
+			"probe_found", "probe_notfound", "probe_stream_multi", "probe_search_ended_early", "probe_local_valid", "probe_local_expired", "probe_local_expired_midsearch", "probe_peer_serves_local_bytes_valid", "probe_peer_serves_local_bytes_expired_at_start", "probe_peer_serves_local_bytes_expired_midsearch", "probe_bestknown_checked"},
 	})
 }
 
